@@ -232,6 +232,20 @@ def _bounded_pipeline(tier, seed):
                     bad({'text': a.pp_desc, 'config': cfg, 'fn': 'Tract on normalised text'}, [c.pp_desc, c.qqs[:4]], [a.pp_desc, a.qqs[:4]])
         if len(samples) < 3 and len(chain) == 2:
             samples.append({'spelled': spelled, 'canonical': canon_txt})
+    # chains with bare quarters under clean_qq
+    for chain in chains[:120 if tier == 'quick' else 400]:
+        if not any(c in ('ne', 'nw', 'se', 'sw') for c in chain):
+            continue
+        canon_txt = ''.join(CANON[c] for c in chain)
+        for joiner in (' ', ' of ', ' of the '):
+            spelled = joiner.join(c.upper() if c in ('ne', 'nw', 'se', 'sw') else rng.choice(SPELLINGS[c][:6]) for c in chain)
+            got = scrub_aliquots(spelled, True)
+            ev += 1
+            distinct.add(('bare', spelled))
+            if got != canon_txt:
+                bad({'text': spelled, 'clean_qq': True, 'fn': 'scrub_aliquots'}, got, canon_txt)
+            if scrub_aliquots(got, True) != got:
+                bad({'text': got, 'clean_qq': True, 'fn': 'scrub_aliquots twice'}, scrub_aliquots(got, True), got)
     # bare quarters: an aliquot only under clean_qq or directly after a half
     for q in ('NE', 'NW', 'SE', 'SW'):
         for ctx, clean, want in ((f'{q}', False, q), (f'{q}', True, q + '¼'), (f'N/2 {q}', False, 'N½' + q + '¼'), (f'N½{q}', False, 'N½' + q + '¼'),
